@@ -148,7 +148,9 @@ def gen_collide(rng):
 def plan(ctx):
     batches = pc.plan_proc(ctx, ID, ["mixed", "nofatal", "allok"], 60, 3000)
     from checks import C09 as c9
+    from checks import gen_proc
     rng = ctx["rng"]
+    batches.append(("stale", [("st%d" % i, gen_proc.stale_tick_history(rng)) for i in range(30 if ctx["tier"] == "quick" else 1500)]))
     ops = []
     for _ in range(300 if ctx["tier"] == "quick" else 6000):
         o = c9.gen_op(rng)
